@@ -600,7 +600,7 @@ proof fn witness_rst_none()
     reveal_with_fuel(rst_scan, 2);
 }
 
-//@@ fn src/xlsx/mod.rs read_string props=C19 ret=r
+//@@ fn src/xlsx/mod.rs read_string props=C19,C06 ret=r
 //@@ sig
     ensures
         //# C19.reader_events_frame
@@ -817,7 +817,7 @@ proof fn lemma_sst_end(ev: Seq<Ev>, i: int, s: SstSt)
 }
 
 //@@ impl src/xlsx/mod.rs Xlsx
-//@@ fn src/xlsx/mod.rs Xlsx::read_shared_strings props=C19 ret=r
+//@@ fn src/xlsx/mod.rs Xlsx::read_shared_strings props=C19,C06 ret=r
 //@@ sig
     ensures
         //# C19.sst_absent_part
@@ -1057,7 +1057,7 @@ proof fn witness_mc_scan()
     assert(Seq::<Dimensions>::empty().push(Dimensions { start: (2u32, 2u32), end: (2u32, 2u32) }) =~= seq![Dimensions { start: (2u32, 2u32), end: (2u32, 2u32) }]);
 }
 
-//@@ fn src/xlsx/mod.rs get_attribute props=C01,C17 ret=r
+//@@ fn src/xlsx/mod.rs get_attribute props=C01,C17,C06 ret=r
 //@@ r6 0
 //@@ sig
     ensures
@@ -1119,7 +1119,7 @@ proof fn lemma_mc_end(ev: Seq<Ev>, i: int, acc: Seq<Dimensions>)
     }
 }
 
-//@@ fn src/xlsx/mod.rs read_merge_cells props=C17 ret=r
+//@@ fn src/xlsx/mod.rs read_merge_cells props=C17,C06 ret=r
 //@@ r6 1
 //@@ replace /XlsxError::XmlAttr/ Verus: "using a datatype constructor as a function value" unsupported; eta-expanded
 |e| XlsxError::XmlAttr(e)
@@ -1218,10 +1218,10 @@ pub open spec fn atoi_usize(s: Seq<u8>) -> Option<usize> { atoi_simd::atoi_spec:
 pub closed spec fn edt_parts(e: ExcelDateTime) -> (f64, ExcelDateTimeType, bool) { (e.value, e.datetime_type, e.is_1904) }
 pub closed spec fn edt_mk(value: f64, datetime_type: ExcelDateTimeType, is_1904: bool) -> ExcelDateTime { ExcelDateTime { value, datetime_type, is_1904 } }
 //@@ impl src/datatype.rs ExcelDateTime
-//@@ fn src/datatype.rs ExcelDateTime::new props=C10 ret=r
+//@@ fn src/datatype.rs ExcelDateTime::new props=C10,C16 ret=r
 //@@ sig
     ensures
-        //# C10.edt_new_fields
+        //# C10,C16.edt_new_fields
         r == edt_mk(value, datetime_type, is_1904),
 //@@ end
 //@@ endimpl
@@ -1234,12 +1234,12 @@ pub open spec fn flavour(format: Option<&CellFormat>) -> Option<ExcelDateTimeTyp
     }
 }
 // same contract as in unit formats, re-verified here on the same text
-//@@ fn src/formats.rs format_excel_f64_ref props=C10 ret=r
+//@@ fn src/formats.rs format_excel_f64_ref props=C10,C01,C16 ret=r
 //@@ sig
     ensures
-        //# C10.f64_plain_when_not_date_format
+        //# C10,C01.f64_plain_when_not_date_format
         flavour(format) is None ==> r == DataRef::<'static>::Float(value),
-        //# C10.f64_datetime_iff_date_format
+        //# C10,C16.f64_datetime_iff_date_format
         flavour(format) matches Some(ty) ==> r == DataRef::<'static>::DateTime(edt_mk(value, ty, is_1904)),
 //@@ end
 
@@ -1303,7 +1303,7 @@ pub open spec fn typed_dv(c_attrs: Seq<Attr>, v: Seq<char>, strings: Seq<String>
     }
 }
 
-//@@ fn src/xlsx/cells_reader.rs read_v props=C01 entry ret=r
+//@@ fn src/xlsx/cells_reader.rs read_v props=C01,C10,C16,C19 entry ret=r
 //@@ replace /Some\(b"s"\) =>/ Verus crashes on byte-string literal patterns (ill-typed AIR); equivalent guard
 Some(__t) if __t == b"s" =>
 //@@ replace /Some\(b"b"\) =>/ byte-string literal pattern -> equivalent guard
@@ -1337,15 +1337,15 @@ map_err(|e| XlsxError::ParseFloat(e))
         t_is(c_element.ev().attrs, n_d()) ==> r == Ok::<DataRef<'s>, XlsxError>(DataRef::DateTimeIso(v)),
         //# C01,C19.value_typing_formula_string
         t_is(c_element.ev().attrs, n_str()) ==> r == Ok::<DataRef<'s>, XlsxError>(DataRef::String(v)),
-        //# C01,C10.value_typing_number
+        //# C01,C10,C16.value_typing_number
         t_is(c_element.ev().attrs, n_n()) && v@.len() > 0 && parse_spec::<f64>(v@) is Ok && style_valid(c_element.ev().attrs, formats@) ==>
             r == Ok::<DataRef<'s>, XlsxError>(num_value(parse_spec::<f64>(v@)->Ok_0, style_fmt(c_element.ev().attrs, formats@), is_1904)),
-        //# C01,C10.value_typing_default_is_number
+        //# C01,C10,C16.value_typing_default_is_number
         attr_scan(c_element.ev().attrs, n_t()) is Absent && parse_spec::<f64>(v@) is Ok && style_valid(c_element.ev().attrs, formats@) ==>
             r == Ok::<DataRef<'s>, XlsxError>(num_value(parse_spec::<f64>(v@)->Ok_0, style_fmt(c_element.ev().attrs, formats@), is_1904)),
         //# C01.value_typing_empty_number
         t_is(c_element.ev().attrs, n_n()) && v@.len() == 0 ==> r == Ok::<DataRef<'s>, XlsxError>(DataRef::Empty),
-        //# C01,C10.value_typing
+        //# C01,C10,C16,C19.value_typing
         typed_dv(c_element.ev().attrs, v@, strings@, formats@, is_1904) is Some ==>
             r is Ok && dv(r->Ok_0) == typed_dv(c_element.ev().attrs, v@, strings@, formats@, is_1904)->Some_0,
 //@@ body
@@ -1403,7 +1403,7 @@ proof fn lemma_txt_end(ev: Seq<Ev>, i: int, name: Seq<u8>, acc: Seq<char>)
 }
 pub open spec fn inline_dv(t: Option<Seq<char>>) -> DV { match t { Some(x) => DV::Str(x), None => DV::Empty } }
 
-//@@ fn src/xlsx/cells_reader.rs read_value props=C01 ret=r
+//@@ fn src/xlsx/cells_reader.rs read_value props=C01,C10,C16,C19,C06 ret=r
 //@@ replace /b"is" =>/ Verus crashes on byte-string literal patterns; equivalent guard
 __n if __n == b"is" =>
 //@@ replace /b"v" =>/ byte-string literal pattern -> equivalent guard
@@ -1416,7 +1416,7 @@ __n if __n == b"f" =>
     ensures
         //# C01.value_reader_frame
         final(xml).events() == old(xml).events() && final(xml).pos() >= old(xml).pos(),
-        //# C01,C10.value_from_v
+        //# C01,C10,C16,C19.value_from_v
         ({ let tx = txt_scan(old(xml).events(), old(xml).pos() as int, e.ev().name, Seq::empty());
            let ty = typed_dv(c_element.ev().attrs, tx.text, strings@, formats@, is_1904);
            e.ev().local() =~= n_v() && tx.ok && ty is Some ==>
@@ -1649,7 +1649,7 @@ proof fn witness_next_scan(cx: ShCtx)
 }
 
 //@@ impl src/xlsx/cells_reader.rs XlsxCellReader
-//@@ fn src/xlsx/cells_reader.rs XlsxCellReader::next_cell props=C01 entry ret=r
+//@@ fn src/xlsx/cells_reader.rs XlsxCellReader::next_cell props=C01,C10,C16,C19 entry ret=r
 //@@ sig
     ensures
         //# C01.cells_reader_frame
@@ -1659,7 +1659,7 @@ proof fn witness_next_scan(cx: ShCtx)
            let nx = next_scan(ev, old(self).g_pos() as int, old(self).g_cur(), old(self).g_cx());
            nx.ok && nx.cell is Some ==>
                (r matches Ok(Some(c)) && c.p().0 == nx.cell->Some_0.0.0 && c.p().1 == nx.cell->Some_0.0.1) }),
-        //# C01,C10.cell_value
+        //# C01,C10,C16,C19.cell_value
         ({ let ev = old(self).g_events();
            let nx = next_scan(ev, old(self).g_pos() as int, old(self).g_cur(), old(self).g_cx());
            nx.ok && nx.cell is Some ==>
